@@ -73,3 +73,55 @@ for _rank in (1, 2, 3):
         vc.ensure("same_requires_grad", vc.eq(vc.attr(a, "requires_grad"), vc.attr(b, "requires_grad")))
         vc.ensure("same_dtype", vc.eq(vc.attr(a, "dtype"), vc.attr(b, "dtype")))
     obligation(f"C02.fold_settings.TorchTensorParameter.rank{_rank}", "C02", [f"{TN}:TorchTensorParameter.fold_settings"])(_h)
+
+
+# ------------------------------------------------------------------------------------------------
+# O2: the optimisation rule that rewrites ReduceSum(dim=r) o OuterProduct(dim=o) into an einsum (+ flatten) emits nodes
+# whose composition computes exactly that function, for every rank <= 4 (the rule's own limit), every (o, r), all sizes
+# ------------------------------------------------------------------------------------------------
+from engine.tensor import MR
+
+OP = "cirkit/backend/torch/optimization/parameters.py"
+PO = "cirkit/backend/torch/parameters/optimized.py"
+
+for _n in (1, 2, 3, 4):
+    for _o in range(_n):
+        for _r in range(_n):
+            def _h(vc, _n=_n, _o=_o, _r=_r):
+                F = vc.int("F", lo=1)
+                s1 = vc.shape("in_shape1", _n)
+                K2 = vc.int("K2", lo=1)
+                s2 = tuple(K2 if j == _o else s1[j] for j in range(_n))
+                nodes = vc.call(f"{OP}:_emit_outer_reduce_flatten_parameter", s1, s2, _o, _r)
+                nodes = list(vc.I.B.iterate(vc.I, nodes))
+                vc.ensure("one_or_two_nodes", len(nodes) in (1, 2))
+                F_nodes = [vc.I.call(ClassVal(nd.cls), [], dict(vc.attr(nd, "config"), num_folds=F)) for nd in nodes]
+                x1, x2 = vc.tensor("x1", (F, *s1)), vc.tensor("x2", (F, *s2))
+                y = vc.call((F_nodes[0], "forward"), x1, x2)
+                for nd in F_nodes[1:]:
+                    y = vc.call((nd, "forward"), y)
+                # spec: z[f, .., i1*K2+i2 (at o), ..] = x1[f, .., i1, ..] * x2[f, .., i2, ..], then sum over dim r
+                outer_shape = [s1[j] * K2 if j == _o else s1[j] for j in range(_n)]
+                expect = [F] + [outer_shape[j] for j in range(_n) if j != _r]
+                ok = len(y.shape) == len(expect)
+                vc.ensure("rank", ok)
+                if not ok:
+                    return
+                for j, (a, b) in enumerate(zip(y.shape, expect)):
+                    vc.ensure(f"shape.dim{j}", to_z3(a) == to_z3(b))
+                vc.ensure("declared_shape", vc.eq(vc.attr(nodes[-1], "shape"), tuple(expect[1:])))
+                f = vc.index_consts([F])[0]
+                base = vc.index_consts(list(s1), "a")      # index into x1 (position o: i1)
+                i2 = vc.index_consts([K2], "b")[0]
+                if _r == _o:
+                    out = [f] + [base[j] for j in range(_n) if j != _r]
+                    spec = vc.red("sum", [s1[_o], K2], lambda p, q: x1.elem([f] + [p if j == _o else base[j] for j in range(_n)]) *
+                                  x2.elem([f] + [q if j == _o else base[j] for j in range(_n)]))
+                else:
+                    pos = [MR([(base[j], s1[j]), (i2, K2)]) if j == _o else base[j] for j in range(_n)]
+                    out = [f] + [pos[j] for j in range(_n) if j != _r]
+                    spec = vc.red("sum", [s1[_r]], lambda t: x1.elem([f] + [t if j == _r else base[j] for j in range(_n)]) *
+                                  x2.elem([f] + [t if j == _r else (i2 if j == _o else base[j]) for j in range(_n)]))
+                vc.ensure("computes_reduce_sum_of_outer_product", y.elem(out) == spec)
+            obligation(f"C02.opt.outer_reduce_flatten.rank{_n}.o{_o}.r{_r}", "C02",
+                       [f"{OP}:_emit_outer_reduce_flatten_parameter", f"{PO}:TorchEinsumParameter.forward", f"{PO}:TorchEinsumParameter.__init__"])(_h)
